@@ -3,6 +3,8 @@
 #include "common.hpp"
 #include "BaseGraph/directed_graph.hpp"
 #include "BaseGraph/undirected_graph.hpp"
+#include "BaseGraph/algorithms/topology.hpp"
+#include <unordered_set>
 using namespace BaseGraph;
 using namespace vh;
 
@@ -181,18 +183,43 @@ template <class G> struct FromList<G, NoLabel> {
 template <class L> void elD(const std::vector<Triple> &ts) { emitGuarded([&] { return FromList<LabeledDirectedGraph<L>, L>::run(ts, &observeD<L>); }); }
 template <class L> void elU(const std::vector<Triple> &ts) { emitGuarded([&] { return FromList<LabeledUndirectedGraph<L>, L>::run(ts, &observeU<L>); }); }
 
+// ---- C10: subgraph extraction on the graph a history builds; the iteration order of the very unordered_set object is reported first ----
+template <class G, class ObsF> void subCase(G &g, const std::vector<unsigned> &vs, ObsF obs) {
+    std::unordered_set<VertexIndex> S(vs.begin(), vs.end());
+    Obs order; for (auto v : S) order.push_back(v > 1000 ? 1000 : v);     // the driver represents every huge index by 1000
+    emit("I", Segs{order});
+    emitGuarded([&] { return obs(algorithms::getSubgraph(g, S)); });
+    emitGuarded([&] {
+        auto r = algorithms::getSubgraphWithRemap(g, S);
+        Segs o = obs(r.first); Obs m;
+        for (auto v : S) { auto it = r.second.find(v); m.push_back(it == r.second.end() ? -1 : (Z)it->second); }
+        if (r.second.size() != S.size()) m.push_back(-9);
+        o.push_back(m); return o; });
+}
+static std::vector<unsigned> parseSet(const std::string &str) { std::vector<unsigned> v; std::istringstream is(str); unsigned x; while (is >> x) v.push_back(x); return v; }
+template <class L> void subD(size_t n, const std::vector<std::string> &ops, const std::vector<unsigned> &vs) {
+    LabeledDirectedGraph<L> g(n); for (auto &op : ops) applyOp(g, op); subCase(g, vs, [](const LabeledDirectedGraph<L> &h) { return observeD(h); }); }
+template <class L> void subU(size_t n, const std::vector<std::string> &ops, const std::vector<unsigned> &vs) {
+    LabeledUndirectedGraph<L> g(n); for (auto &op : ops) applyOp(g, op); subCase(g, vs, [](const LabeledUndirectedGraph<L> &h) { return observeU(h); }); }
+
 int main() {
     std::string line;
     while (std::getline(std::cin, line)) {
         auto c = line.find(':'); if (c == std::string::npos) continue;
         std::istringstream hd(line.substr(0, c)); std::string cls, lk; size_t n; hd >> cls;
-        bool eq = cls == "EQ", cv = cls == "CV", el = cls == "EL"; if (eq || cv || el) hd >> cls;
+        bool eq = cls == "EQ", cv = cls == "CV", el = cls == "EL", sub = cls == "SUB"; if (eq || cv || el || sub) hd >> cls;
         hd >> lk; if (!el) hd >> n;
         fputs(("CASE " + line + "\n").c_str(), stdout); fflush(stdout);
         if (eq) {
             std::string body = line.substr(c + 1); auto bar = body.find('|');
             auto a = splitOps(body.substr(0, bar)), b = splitOps(bar == std::string::npos ? "" : body.substr(bar + 1));
             if (cls == "D") DISPATCH(eqD, lk, n, a, b); else if (cls == "U") DISPATCH(eqU, lk, n, a, b);
+            continue;
+        }
+        if (sub) {
+            std::string body = line.substr(c + 1); auto bar = body.find('|');
+            auto a = splitOps(body.substr(0, bar)); auto vs = parseSet(bar == std::string::npos ? "" : body.substr(bar + 1));
+            if (cls == "D") DISPATCH(subD, lk, n, a, vs); else DISPATCH(subU, lk, n, a, vs);
             continue;
         }
         if (el) { auto ts = parseTriples(line.substr(c + 1)); if (cls == "D") DISPATCH(elD, lk, ts); else DISPATCH(elU, lk, ts); continue; }
